@@ -40,7 +40,7 @@ var c12Actions = []struct {
 	{"unknown-identifier", "1 + noSuchVariable", true, ""},
 	{"unknown-identifier", "fstr | noSuchFunction", true, ""},
 	{"unknown-field", "fuser.NoSuchField", true, ""},
-	{"unknown-field", ".NoSuchField", true, ""},
+	{"unknown-field", ".NoSuchField.Deeper", true, ""},
 	{"unknown-field", "fuser.secret", true, ""},
 	{"unknown-field", "fmap.k.deeper", true, ""},
 	{"unknown-method", "fuser.NoSuchMethod()", true, ""},
